@@ -621,6 +621,12 @@ func runCase(self string, c Case) result {
 				if c.Ops[n-1].K == "prune" && ri.ver == c.Ops[n-1].Ver {
 					continue
 				}
+				// a root the UNINTERRUPTED operation itself makes unreadable is C06's business (known
+				// badger findings), not an effect of the crash
+				if finalizedBefore && after.Roots[id] != "exact" && ri.ver >= after.Earliest {
+					res.notes["root-lost-by-the-uninterrupted-operation-too(C06)"]++
+					continue
+				}
 				if finalizedBefore && ri.ver >= crash.Earliest && crash.Roots[id] != "exact" {
 					res.viol = append(res.viol, fmt.Sprintf("%s: finalized root %d (version %d) reads back %q after a crash at %s in %s", c.Backend, id, ri.ver, crash.Roots[id], p, c.Ops[n-1].K))
 				}
